@@ -35,11 +35,10 @@ Proof.
     assert (Hlen : length (le_bytes w v ++ flat_map (le_bytes w) r) = (w + length (flat_map (le_bytes w) r))%nat)
       by (rewrite app_length, le_bytes_length; reflexivity).
     remember (le_bytes w v ++ flat_map (le_bytes w) r) as l eqn:El.
-    rewrite <- El in Hlen.
-    destruct l as [|b t]; [cbn in Hlen; lia|].
+    destruct l as [|b t]; [exfalso; clear - Hlen Hw; cbn [length] in Hlen; lia|].
     cbn [bp_unpack_loop]. rewrite El.
     assert (Hlt : Nat.ltb (length (le_bytes w v ++ flat_map (le_bytes w) r)) w = false)
-      by (apply Nat.ltb_ge; lia).
+      by (apply Nat.ltb_ge; rewrite app_length, le_bytes_length; lia).
     rewrite Hlt.
     rewrite skipn_app, le_bytes_length, Nat.sub_diag, skipn_O.
     rewrite (skipn_all2 (le_bytes w v)) by (rewrite le_bytes_length; lia). cbn [app].
